@@ -217,3 +217,356 @@ Section Fwd.
       + cbn [rel_test]. rewrite Z2Nat.id by lia. lia.
   Qed.
 End Fwd.
+
+(* ---- reversed loops --------------------------------------------------------------------------- *)
+(* the constant start bound without the |s| = 1 shortcut *)
+Lemma rev_bound1_const_formula a b s : s <> 0 ->
+  rev_bound1_const a b s =
+  if s <? 0 then a - Z.abs s * ((a - b - 1) / Z.abs s) - 1 else a + Z.abs s * ((b - a - 1) / Z.abs s) + 1.
+Proof.
+  intros Hs. unfold rev_bound1_const. destruct (Z.eqb_spec (Z.abs s) 1) as [E|E]; [|reflexivity].
+  rewrite E, !Z.div_1_r. destruct (s <? 0); lia.
+Qed.
+
+(* first value of the reversed loop: the last element of the range, or a value that fails the test *)
+Lemma rev_first_pos a b s : 0 < s ->
+  let n := py_range_len a b s in
+  let F := rev_bound1_const a b s - 1 in
+  (0 < n -> F = a + s * (n - 1)) /\ (n = 0 -> F < a).
+Proof.
+  intros Hs. cbn zeta. rewrite rev_bound1_const_formula by lia.
+  destruct (Z.ltb_spec s 0); [lia|]. replace (Z.abs s) with s by lia.
+  unfold py_range_len. destruct (Z.ltb_spec 0 s); [|lia].
+  pose proof (Z.div_mod (b - a - 1) s ltac:(lia)) as D.
+  pose proof (Z.mod_pos_bound (b - a - 1) s Hs) as M.
+  set (q := (b - a - 1) / s) in *. set (r := (b - a - 1) mod s) in *.
+  destruct (Z.ltb_spec a b) as [Hab|Hab].
+  - split; [intros _; ring_simplify; lia | intros E].
+    assert (0 <= q) by (subst q; apply Z.div_pos; lia). lia.
+  - split; [lia | intros _]. assert (q <= -1) by nia. nia.
+Qed.
+
+Lemma rev_first_neg a b s : s < 0 ->
+  let n := py_range_len a b s in
+  let F := rev_bound1_const a b s + 1 in
+  (0 < n -> F = a + s * (n - 1)) /\ (n = 0 -> a < F).
+Proof.
+  intros Hs. cbn zeta. rewrite rev_bound1_const_formula by lia.
+  destruct (Z.ltb_spec s 0); [|lia]. replace (Z.abs s) with (- s) by lia.
+  unfold py_range_len. destruct (Z.ltb_spec 0 s); [lia|].
+  pose proof (Z.div_mod (a - b - 1) (- s) ltac:(lia)) as D.
+  pose proof (Z.mod_pos_bound (a - b - 1) (- s) ltac:(lia)) as M.
+  set (q := (a - b - 1) / (- s)) in *. set (r := (a - b - 1) mod (- s)) in *.
+  destruct (Z.ltb_spec b a) as [Hab|Hab].
+  - split; [intros _; ring_simplify; lia | intros E].
+    assert (0 <= q) by (subst q; apply Z.div_pos; lia). lia.
+  - split; [lia | intros _]. assert (q <= -1) by nia. nia.
+Qed.
+
+Section Rev.
+  Context {S : Type}.
+  Variable body : Z -> S -> ctl * S.
+
+  Theorem reversed_loop_const_eq w sg a b s fuel st :
+    1 <= w -> s <> 0 -> in_range w sg a ->
+    rev_safe w sg (rev_bound1_const a b s) a s = true ->
+    (length (py_range a b s) < fuel)%nat ->
+    reversed_loop_const body w sg a b s fuel st = done_of (py_for body (py_reversed_range a b s) st).
+  Proof.
+    intros Hw Hs Ha Hsafe Hfuel.
+    set (n := py_range_len a b s). pose proof (py_range_len_nonneg a b s Hs) as Hn. fold n in Hn.
+    rewrite py_range_length in Hfuel. fold n in Hfuel.
+    rewrite py_reversed_range_indexed. fold n.
+    unfold reversed_loop_const, reversed_loop_from, rev_safe, unsigned_desc in *.
+    set (b1 := rev_bound1_const a b s) in *.
+    apply andb_true_iff in Hsafe. destruct Hsafe as [Sb1 Hsafe]. apply in_rangeb_spec in Sb1.
+    destruct (Z.ltb_spec s 0) as [Hneg|Hpos].
+    - (* reversed(range(a, b, -A)): for (t = b1 + 1; t <= a; t += A) *)
+      destruct (rev_first_neg a b s Hneg) as [F1 F0]. fold n b1 in F1, F0.
+      cbn [find_relations fst snd rel_is_gt rel_offset] in *. rewrite andb_false_r in *.
+      unfold for_from. cbn [rel_is_gt rel_offset rel_incr]. rewrite andb_false_r.
+      replace (Z.abs s) with (- s) in * by lia.
+      apply andb_true_iff in Hsafe. destruct Hsafe as [S1 S2].
+      apply in_rangeb_spec in S1. apply in_rangeb_spec in S2.
+      rewrite cop_id by assumption.
+      apply c_loop_follows; [|rewrite map_length, seq_length; exact Hfuel].
+      apply (follows_indexed0 _ _ _ (fun i => b1 + 1 - s * Z.of_nat i) (fun i => a + s * (n - 1) - s * Z.of_nat i)).
+      + cbn. lia.
+      + intros i Hi. specialize (F1 ltac:(lia)). repeat split.
+        * cbn [rel_test]. nia.
+        * f_equal. lia.
+        * replace (a + s * (n - 1) - s * Z.of_nat i + - s) with (b1 + 1 - s * Z.of_nat (Datatypes.S i)) by lia.
+          apply cop_id; [assumption|].
+          apply (in_range_between _ _ (b1 + 1) (a - s)); try assumption. nia.
+      + cbn [rel_test]. rewrite Z2Nat.id by lia.
+        destruct (Z.eq_dec n 0) as [E|E]; [specialize (F0 E); rewrite E; lia | specialize (F1 ltac:(lia)); nia].
+    - (* reversed(range(a, b, A)) *)
+      assert (Hpos' : 0 < s) by lia.
+      destruct (rev_first_pos a b s Hpos') as [F1 F0]. fold n b1 in F1, F0.
+      cbn [find_relations fst snd rel_is_gt rel_offset] in *.
+      unfold for_from. cbn [rel_is_gt rel_offset rel_incr].
+      replace (Z.abs s) with s in * by lia.
+      destruct sg; cbn [negb andb] in *.
+      + (* signed: for (t = b1 - 1; t >= a; t -= A) *)
+        apply andb_true_iff in Hsafe. destruct Hsafe as [S1 S2].
+        apply in_rangeb_spec in S1. apply in_rangeb_spec in S2.
+        rewrite cop_id by assumption.
+        apply c_loop_follows; [|rewrite map_length, seq_length; exact Hfuel].
+        apply (follows_indexed0 _ _ _ (fun i => b1 + -1 - s * Z.of_nat i) (fun i => a + s * (n - 1) - s * Z.of_nat i)).
+        * cbn. lia.
+        * intros i Hi. specialize (F1 ltac:(lia)). repeat split.
+          -- cbn [rel_test]. nia.
+          -- f_equal. lia.
+          -- replace (a + s * (n - 1) - s * Z.of_nat i - s) with (b1 + -1 - s * Z.of_nat (Datatypes.S i)) by lia.
+             apply cop_id; [assumption|].
+             apply (in_range_between _ _ (a - s) (b1 + -1)); try assumption. nia.
+        * cbn [rel_test]. rewrite Z2Nat.id by lia.
+          destruct (Z.eq_dec n 0) as [E|E]; [specialize (F0 E); rewrite E; lia | specialize (F1 ltac:(lia)); nia].
+      + (* unsigned: for (t = b1 - 1 + A; t >= a + A; ) { t -= A; *)
+        apply andb_true_iff in Hsafe. destruct Hsafe as [S1 S2].
+        apply in_rangeb_spec in S1. apply in_rangeb_spec in S2.
+        rewrite cop_id, carith_id by assumption.
+        apply c_loop_follows; [|rewrite map_length, seq_length; exact Hfuel].
+        apply (follows_indexed0 _ _ _ (fun i => b1 + -1 + s - s * Z.of_nat i) (fun i => a + s * (n - 1) - s * Z.of_nat i)).
+        * cbn. lia.
+        * intros i Hi. specialize (F1 ltac:(lia)). repeat split.
+          -- cbn [rel_test]. nia.
+          -- replace (b1 + -1 + s - s * Z.of_nat i - s) with (a + s * (n - 1) - s * Z.of_nat i) by lia.
+             apply cop_id; [assumption|].
+             apply (in_range_between _ _ a (b1 + -1 + s)); try assumption. nia.
+          -- f_equal. lia.
+        * cbn [rel_test]. rewrite Z2Nat.id by lia.
+          destruct (Z.eq_dec n 0) as [E|E]; [specialize (F0 E); rewrite E; lia | specialize (F1 ltac:(lia)); nia].
+  Qed.
+
+  (* runtime bounds: when the C evaluation of the start bound is exact, the loop is the constant-bound loop *)
+  Theorem reversed_loop_rt_eq floor w sg cw csg a b s fuel st :
+    1 <= w -> s <> 0 -> in_range w sg a ->
+    rev_bound1_rt floor cw csg a b s = Some (rev_bound1_const a b s) ->
+    rev_safe w sg (rev_bound1_const a b s) a s = true ->
+    (length (py_range a b s) < fuel)%nat ->
+    reversed_loop_rt body floor w sg cw csg a b s fuel st = done_of (py_for body (py_reversed_range a b s) st).
+  Proof.
+    intros Hw Hs Ha Hb1 Hsafe Hfuel. unfold reversed_loop_rt. rewrite Hb1.
+    apply (reversed_loop_const_eq w sg a b s fuel st); assumption.
+  Qed.
+End Rev.
+
+(* with Python's // (cdivision=False) and a signed computation type the start bound is exact whenever
+   the C expression is free of undefined behaviour *)
+Theorem rev_bound1_rt_signed_exact cw csg a b s r :
+  s <> 0 -> prom_s cw csg = true ->
+  rev_bound1_rt true cw csg a b s = Some r -> r = rev_bound1_const a b s.
+Proof.
+  intros Hs Hp. unfold rev_bound1_rt, rev_bound1_const. cbn [orb].
+  destruct (Z.abs s =? 1); [congruence|].
+  destruct (s <? 0).
+  - destruct (carith cw csg (a - b)) as [d|] eqn:E1; cbn [bind]; [|discriminate].
+    destruct (carith cw csg (d - 1)) as [d1|] eqn:E2; cbn [bind]; [|discriminate].
+    destruct (carith cw csg (Z.abs s * (d1 / Z.abs s))) as [m|] eqn:E3; cbn [bind]; [|discriminate].
+    destruct (carith cw csg (a - m)) as [x|] eqn:E4; cbn [bind]; [|discriminate].
+    intros E5.
+    apply carith_signed_exact in E1, E2, E3, E4, E5; try assumption. subst. reflexivity.
+  - destruct (carith cw csg (b - a)) as [d|] eqn:E1; cbn [bind]; [|discriminate].
+    destruct (carith cw csg (d - 1)) as [d1|] eqn:E2; cbn [bind]; [|discriminate].
+    destruct (carith cw csg (Z.abs s * (d1 / Z.abs s))) as [m|] eqn:E3; cbn [bind]; [|discriminate].
+    destruct (carith cw csg (a + m)) as [x|] eqn:E4; cbn [bind]; [|discriminate].
+    intros E5.
+    apply carith_signed_exact in E1, E2, E3, E4, E5; try assumption. subst. reflexivity.
+Qed.
+
+(* ---- object targets: the loop variable is a C long and all three arguments are small literals ---- *)
+Lemma small_in_range64 v : - 2 ^ 31 <= v < 2 ^ 31 -> in_range 64 true v.
+Proof. unfold in_range, min_int, max_int. change (2 ^ (64 - 1)) with 9223372036854775808. lia. Qed.
+
+Lemma fwd_safe_small a b s :
+  s <> 0 -> - 2 ^ 30 <= a < 2 ^ 30 -> - 2 ^ 30 <= b < 2 ^ 30 -> - 2 ^ 30 <= s < 2 ^ 30 ->
+  fwd_safe 64 true a b s = true.
+Proof.
+  intros Hs Ha Hb Hs'. unfold fwd_safe, unsigned_desc. cbn [negb andb].
+  apply in_rangeb_spec. apply small_in_range64.
+  set (n := py_range_len a b s).
+  destruct (Z.lt_trichotomy s 0) as [H|[H|H]]; [|lia|].
+  - destruct (len_spec_neg a b s H) as (Hn & Hin & Hout & Hz). fold n in Hn, Hin, Hout, Hz.
+    destruct (Z.eq_dec n 0) as [E|E]; [rewrite E; lia|].
+    specialize (Hin (n - 1) ltac:(lia)). lia.
+  - destruct (len_spec_pos a b s H) as (Hn & Hin & Hout & Hz). fold n in Hn, Hin, Hout, Hz.
+    destruct (Z.eq_dec n 0) as [E|E]; [rewrite E; lia|].
+    specialize (Hin (n - 1) ltac:(lia)). lia.
+Qed.
+
+Lemma rev_safe_small a b s :
+  s <> 0 -> - 2 ^ 30 <= a < 2 ^ 30 -> - 2 ^ 30 <= b < 2 ^ 30 -> - 2 ^ 30 <= s < 2 ^ 30 ->
+  rev_safe 64 true (rev_bound1_const a b s) a s = true.
+Proof.
+  intros Hs Ha Hb Hs'. unfold rev_safe, unsigned_desc. cbn [negb andb].
+  set (n := py_range_len a b s). set (b1 := rev_bound1_const a b s).
+  assert (- 2 ^ 31 + 1 <= b1 < 2 ^ 31 - 1) as Hb1.
+  { destruct (Z.lt_trichotomy s 0) as [H|[H|H]]; [|lia|].
+    - destruct (rev_first_neg a b s H) as [F1 F0]. fold n b1 in F1, F0.
+      destruct (len_spec_neg a b s H) as (Hn & Hin & Hout & Hz). fold n in Hn, Hin, Hout, Hz.
+      destruct (Z.eq_dec n 0) as [E|E].
+      + (* empty: b1 + 1 = a - A*q with -? *) clear F1. specialize (F0 E).
+        subst b1. rewrite rev_bound1_const_formula in * by lia.
+        destruct (Z.ltb_spec s 0); [|lia]. replace (Z.abs s) with (- s) in * by lia.
+        pose proof (Z.div_mod (a - b - 1) (- s) ltac:(lia)) as D.
+        pose proof (Z.mod_pos_bound (a - b - 1) (- s) ltac:(lia)) as M.
+        set (q := (a - b - 1) / (- s)) in *. set (r := (a - b - 1) mod (- s)) in *. lia.
+      + specialize (F1 ltac:(lia)). specialize (Hin (n - 1) ltac:(lia)).
+        assert (a + s * (n - 1) <= a) by nia. lia.
+    - destruct (rev_first_pos a b s H) as [F1 F0]. fold n b1 in F1, F0.
+      destruct (len_spec_pos a b s H) as (Hn & Hin & Hout & Hz). fold n in Hn, Hin, Hout, Hz.
+      destruct (Z.eq_dec n 0) as [E|E].
+      + clear F1. specialize (F0 E).
+        subst b1. rewrite rev_bound1_const_formula in * by lia.
+        destruct (Z.ltb_spec s 0); [lia|]. replace (Z.abs s) with s in * by lia.
+        pose proof (Z.div_mod (b - a - 1) s ltac:(lia)) as D.
+        pose proof (Z.mod_pos_bound (b - a - 1) s ltac:(lia)) as M.
+        set (q := (b - a - 1) / s) in *. set (r := (b - a - 1) mod s) in *. lia.
+      + specialize (F1 ltac:(lia)). specialize (Hin (n - 1) ltac:(lia)).
+        assert (a <= a + s * (n - 1)) by nia. lia. }
+  rewrite !andb_true_iff. repeat split; apply in_rangeb_spec; apply small_in_range64.
+  - lia.
+  - destruct (s <? 0); cbn [find_relations fst rel_offset]; lia.
+  - lia.
+Qed.
+
+(* ---- enumerate ---------------------------------------------------------------------------------- *)
+Lemma py_enumerate_cons v r start :
+  py_enumerate (v :: r) start = (start, v) :: py_enumerate r (start + 1).
+Proof.
+  unfold py_enumerate. cbn [length seq map combine]. f_equal; [f_equal; lia|].
+  f_equal. rewrite <- seq_shift, map_map. apply map_ext. intros i. lia.
+Qed.
+
+Theorem enumerate_eq {S} (body : Z * Z -> S -> ctl * S) w sg typed vals : forall start st,
+  1 <= w ->
+  (typed = true -> in_range w sg start /\ in_range w sg (start + Z.of_nat (length vals))) ->
+  (let '((_, st'), e) := py_for (enum_body w sg typed body) vals (start, st) in (st', e))
+  = py_for_pairs body (py_enumerate vals start) st.
+Proof.
+  induction vals as [|v r IH]; intros start st Hw Hfit; [reflexivity|].
+  rewrite py_enumerate_cons. cbn [py_for py_for_pairs enum_body].
+  destruct (body (start, v) st) as [[|] st']; [|reflexivity].
+  assert (Hc : (if typed then wrap w sg (start + 1) else start + 1) = start + 1).
+  { destruct typed; [|reflexivity]. destruct (Hfit eq_refl) as [H1 H2].
+    apply wrap_id; [assumption|]. cbn [length] in H2. unfold in_range in *. lia. }
+  rewrite Hc. apply IH; [assumption|].
+  intros Ht. destruct (Hfit Ht) as [H1 H2]. cbn [length] in H2. split.
+  - unfold in_range in *. lia.
+  - replace (start + 1 + Z.of_nat (length r)) with (start + Z.of_nat (Datatypes.S (length r))) by lia. exact H2.
+Qed.
+
+(* ---- the observing body: values seen, final target, else flag ------------------------------------ *)
+Lemma last_cons {A} (l : list A) : forall x d, last (x :: l) d = last l x.
+Proof.
+  induction l as [|y l IH]; intros x d; [reflexivity|].
+  change (last (x :: y :: l) d) with (last (y :: l) d). rewrite !IH. reflexivity.
+Qed.
+
+Lemma py_for_log_nobreak brk vals : forall l t,
+  Z.of_nat (length l + length vals) < brk ->
+  py_for (log_body brk) vals (l, t) = ((l ++ vals, last (map Some vals) t), true).
+Proof.
+  induction vals as [|v r IH]; intros l t H.
+  - cbn. rewrite app_nil_r. reflexivity.
+  - cbn [py_for log_body fst]. rewrite app_length in *. cbn [length] in *.
+    destruct (Z.leb_spec brk (Z.of_nat (length l + 1))); [lia|].
+    rewrite IH by (rewrite app_length; cbn [length]; lia).
+    rewrite <- app_assoc. cbn [app map]. rewrite last_cons. reflexivity.
+Qed.
+
+(* the else clause runs iff the body never breaks *)
+Lemma py_for_else_iff {S} (body : Z -> S -> ctl * S) vals : forall st,
+  snd (py_for body vals st) = false <->
+  exists pre v post st1, vals = pre ++ v :: post /\ py_for body pre st = (st1, true) /\ fst (body v st1) = Break.
+Proof.
+  induction vals as [|v r IH]; intros st.
+  - cbn. split; [discriminate|]. intros (pre & v & post & st1 & E & _). destruct pre; discriminate.
+  - cbn [py_for]. destruct (body v st) as [[|] st'] eqn:Eb.
+    + rewrite IH. split.
+      * intros (pre & v' & post & st1 & E & Hp & Hb). exists (v :: pre), v', post, st1.
+        subst r. cbn [app py_for]. rewrite Eb. auto.
+      * intros (pre & v' & post & st1 & E & Hp & Hb). destruct pre as [|p pre].
+        -- cbn in E, Hp. injection E as -> ->. injection Hp as <-. rewrite Eb in Hb. discriminate.
+        -- cbn in E. injection E as -> ->. cbn [py_for] in Hp. rewrite Eb in Hp.
+           exists pre, v', post, st1. auto.
+    + cbn [snd]. split; [intros _|reflexivity].
+      exists [], v, r, st. cbn. rewrite Eb. auto.
+Qed.
+
+(* ---- refutations (finding F16 and the cdivision-dependent start bound) --------------------------- *)
+(* cdef int i; for i in range(2147483646, 2147483647, 2): the increment overflows int -> undefined behaviour *)
+Theorem no_wrap_in_increment_refuted_signed :
+  exists a b s, in_range 32 true a /\ in_range 32 true b /\ s <> 0 /\
+    range_loop (log_body 10) 32 true a b s 20 l0 = UB.
+Proof.
+  exists 2147483646, 2147483647, 2. repeat split; try (vm_compute; intuition congruence).
+Qed.
+
+(* cdef unsigned int i; for i in range(4294967294, 4294967295, 2): wraps to 0 and keeps iterating *)
+Theorem no_wrap_in_increment_refuted_unsigned :
+  exists a b s, in_range 32 false a /\ in_range 32 false b /\ s <> 0 /\
+    range_loop (log_body 3) 32 false a b s 20 l0 = Done ([4294967294; 0; 2], Some 2) false /\
+    py_for (log_body 3) (py_range a b s) l0 = (([4294967294], Some 4294967294), true).
+Proof.
+  exists 4294967294, 4294967295, 2. repeat split; try (vm_compute; intuition congruence).
+Qed.
+
+(* cdef unsigned int i; for i in range(4294967295, 4294967290, -3): start + |step| wraps, zero iterations *)
+Theorem unsigned_descending_refuted :
+  exists a b s, in_range 32 false a /\ in_range 32 false b /\ s <> 0 /\
+    range_loop (log_body 10) 32 false a b s 20 l0 = Done l0 true /\
+    py_for (log_body 10) (py_range a b s) l0 = (([4294967295; 4294967292], Some 4294967292), true).
+Proof.
+  exists 4294967295, 4294967290, (-3). repeat split; try (vm_compute; intuition congruence).
+Qed.
+
+(* reversed(range(-2147483648, 2147483647, 2)) with int bounds: `b - a` overflows in the bound computation *)
+Theorem no_overflow_in_bound_calc_refuted :
+  exists a b s, in_range 32 true a /\ in_range 32 true b /\ s <> 0 /\
+    rev_bound1_rt true 32 true a b s = None.
+Proof.
+  exists (-2147483648), 2147483647, 2. repeat split; try (vm_compute; intuition congruence).
+Qed.
+
+(* under cdivision=True the start bound of reversed(range(0, 0, 3)) is computed with C division:
+   the loop runs once where Python's range is empty *)
+Theorem reversed_bound_cdivision_refuted :
+  exists a b s, in_range 32 true a /\ in_range 32 true b /\ s <> 0 /\
+    reversed_loop_rt (log_body 10) false 32 true 32 true a b s 20 l0 = Done ([0], Some 0) true /\
+    py_reversed_range a b s = [].
+Proof.
+  exists 0, 0, 3. repeat split; try (vm_compute; intuition congruence).
+Qed.
+
+(* ---- packaged statements ---------------------------------------------------------------------- *)
+Theorem object_target_range_eq {S} (body : Z -> S -> ctl * S) a b s fuel st :
+  s <> 0 -> - 2 ^ 30 <= a < 2 ^ 30 -> - 2 ^ 30 <= b < 2 ^ 30 -> - 2 ^ 30 <= s < 2 ^ 30 ->
+  (length (py_range a b s) < fuel)%nat ->
+  range_loop body 64 true a b s fuel st = done_of (py_for body (py_range a b s) st).
+Proof.
+  intros Hs Ha Hb Hs' Hf.
+  apply (range_loop_eq body); try assumption; try lia; try (apply small_in_range64; lia).
+  apply fwd_safe_small; assumption.
+Qed.
+
+Theorem object_target_reversed_eq {S} (body : Z -> S -> ctl * S) a b s fuel st :
+  s <> 0 -> - 2 ^ 30 <= a < 2 ^ 30 -> - 2 ^ 30 <= b < 2 ^ 30 -> - 2 ^ 30 <= s < 2 ^ 30 ->
+  (length (py_range a b s) < fuel)%nat ->
+  reversed_loop_const body 64 true a b s fuel st = done_of (py_for body (py_reversed_range a b s) st).
+Proof.
+  intros Hs Ha Hb Hs' Hf.
+  apply (reversed_loop_const_eq body); try assumption; try lia; try (apply small_in_range64; lia).
+  apply rev_safe_small; assumption.
+Qed.
+
+Theorem iterations_final_value_else w sg a b s fuel brk :
+  1 <= w -> s <> 0 -> in_range w sg a -> in_range w sg b -> fwd_safe w sg a b s = true ->
+  (length (py_range a b s) < fuel)%nat -> Z.of_nat (length (py_range a b s)) < brk ->
+  range_loop (log_body brk) w sg a b s fuel l0
+  = Done (py_range a b s, last (map Some (py_range a b s)) None) true.
+Proof.
+  intros. rewrite (range_loop_eq (log_body brk)) by assumption.
+  unfold l0. rewrite py_for_log_nobreak by (cbn [length plus]; assumption). reflexivity.
+Qed.
